@@ -229,7 +229,15 @@ func (c *Ctx) runProducer(a *asyncInfo, ro *Roles, root *ssa.Function, policy co
 		return call.Common().StaticCallee() != nil && recvNamed(callee) == a.T
 	}
 	isSubmitted := func(v ssa.Value, fr *Frame) bool {
-		rv, _ := rootVal(v, fr)
+		rv, rfr := rootVal(v, fr)
+		// a copy of the submitted bytes is the submitted item
+		for i := 0; i < 4; i++ {
+			call, ok := rv.(*ssa.Call)
+			if !ok || !defaultCopyMaker(call) {
+				break
+			}
+			rv, rfr = rootVal(call.Call.Args[0], rfr)
+		}
 		return rv == submitted
 	}
 	ts.OnBranch = func(s *TSCtx, iff *ssa.If, taken bool) (string, bool) {
